@@ -409,6 +409,10 @@ func c15Run(s *sim.Sim, p *sim.Params) {
 		s.Probe("churn-run")
 	}
 	ntasks := 1 + s.Choose(sim.SWork, 5)
+	if p.Tier == "thorough" && s.Choose(sim.SWork, 3) == 0 {
+		ntasks = 4 + s.Choose(sim.SWork, 5) // the thorough tier also explores more callers
+		s.SetLimits(1_500_000, 0)
+	}
 	if (hot || churn) && ntasks < 2 {
 		ntasks = 2 + s.Choose(sim.SWork, 3)
 	}
